@@ -614,6 +614,11 @@ def identity_runs(ctx, rng, count):
                 chem[rng.randrange(2 * n)] = 1
         system.chemostats = list(chem)
         ts, dt = [0.0, 0.125, 0.25, 0.5], 1 / 64
+        if option == "euler" and policy == "on_t_sample" and rng.random() < 0.6:
+            # two requested times inside one time step, and a repeated request: plain and identity-map runs must record the same rows
+            dt = rng.choice([0.125, 0.25])
+            ts = [0.0, 1.2 * dt, 1.6 * dt, 1.6 * dt, 4 * dt] if rng.random() < 0.5 else [0.0, 0.0, 2.3 * dt, 2.3 * dt, 2.7 * dt, 3 * dt]
+            ctx.count("identity_requests_inside_one_step_and_repeated")
         if policy == "on_iteration":
             # every iteration is recorded; dyadic time step and t_max an exact multiple of it, so that t hits t_max exactly
             dt = rng.choice([0.125, 0.25])
